@@ -300,12 +300,13 @@ NetClose(o) ==
 \* operations in flight, references, collection
 \* ---------------------------------------------------------------------------
 CanRead(k)  == k \in {"tcp", "udp", "acc", "pkt", "peer", "file", "adp", "lst", "timer"}
-CanWrite(k) == k \in {"tcp", "acc", "file", "adp"}
+CanWrite(k) == k \in {"tcp", "acc", "adp"}   \* (the harness opens the FIFO of "file" read-only)
 
 \* an asynchronous operation that cannot complete now: interest set, Slot registered
 Park(o, dir) ==
   LET ob == objs[o] IN
   /\ WithGc /\ ob.st = "live" /\ ~ob.closed /\ ob.refs
+  /\ ob.fd >= 0 /\ tab[ob.fd] = o     \* on a descriptor it still owns (not a revived timer)
   /\ IF dir = "r" THEN CanRead(ob.kind) /\ ~ob.evr ELSE CanWrite(ob.kind) /\ ~ob.evw
   /\ objs' = [objs EXCEPT ![o].evr = IF dir = "r" THEN TRUE ELSE @, ![o].evw = IF dir = "w" THEN TRUE ELSE @]
   /\ reg' = IF ob.kind = "timer" THEN reg ELSE [reg EXCEPT ![ob.fd] = o]
@@ -327,6 +328,7 @@ Fire(o, dir) ==
       other == IF dir = "r" THEN ob.evw ELSE ob.evr
   IN
   /\ WithGc /\ ob.st = "live" /\ ~ob.coll
+  /\ ob.fd >= 0 /\ tab[ob.fd] = o     \* readiness can only be reported for a descriptor that is still open
   /\ IF dir = "r" THEN ob.evr ELSE ob.evw
   /\ objs' = [objs EXCEPT ![o].evr = IF dir = "r" THEN FALSE ELSE @, ![o].evw = IF dir = "w" THEN FALSE ELSE @]
   /\ reg' = IF ob.kind = "timer" THEN reg
@@ -381,4 +383,7 @@ View == <<implvars, mon>>
 
 EmitEdge == /\ PrintT(<<"EDGE", ToJson(hist')>>)
             /\ (mon'.bad # "" => PrintT(<<"MODELBAD", mon'.bad, ToJson(hist')>>))
+
+\* model-only runs: print just the rejected scripts
+EmitBad == mon'.bad # "" => PrintT(<<"MODELBAD", mon'.bad, ToJson(hist')>>)
 =============================================================================
